@@ -119,6 +119,15 @@ CLAIMED = {
             "Trusted: Lean kernel (core-only), ASan/UBSan (signed-overflow and float-cast checks excluded: they do not crash and their "
             "results are modelled), generators, harness+orchestrator. Defects found and repaired: long % -1, vtable dangling pointers, "
             "teardown use-after-free, throwing destructors, endScope re-entrancy, out-of-range literals.", "DESIGN.md §4 C12"),
+    "C18": ("Lean 4 theorems: the evaluator model builds a fresh state from (program, draws) for every execution, so an N-shot run of one "
+            "program equals N independent runs with the same draws provided the tree is unchanged; the only write the evaluator makes into "
+            "the shared tree (ArrayType::size) is modelled with the analyser's constant folding and shown inert on every analysed "
+            "declaration; analysing twice is idempotent + differential: one parsed+analysed Program executed N times (echo on, and echo "
+            "off as multi-shot mode does) against N fresh parse-analyse-run pipelines with the same forced draws",
+            "Proof on the model; PARTIAL: per-shot evaluator state of the C++ (statics, objects, qubit indices, measured flags, tracked "
+            "counts, generic specialisations) is compared shot-by-shot against fresh pipelines on generated programs (bounded), not proved.",
+            "Trusted: Lean kernel (core-only), generators, harness+orchestrator; the process-global RNG is replaced by forced draws on both sides.",
+            "DESIGN.md §4 C18"),
 }
 PENDING_REASON = "check not built yet in this revision of /verif (planned: Lean model + correspondence, see DESIGN.md §4)"
 
